@@ -377,7 +377,7 @@ class Emitter:
         for i, f in enumerate(t.fields):
             fs.append('%s f%d;' % (s.ctype(f), i))
         if not fs: fs = ['char _empty;']
-        return '%s{ %s }' % ('__attribute__((packed)) ' if t.packed else '', ' '.join(fs))
+        return '{ %s }%s' % (' '.join(fs), ' __attribute__((packed))' if t.packed else '')
 
     def anon_struct(s, t):
         k = t.key()
